@@ -8,31 +8,52 @@ from symx import *
 from spec.conn import ConnSpec
 
 
+_WARM = [False]
+
+
+def _warm_up():
+    """compile the jitted kernels once before the module attributes are swapped: numba resolves the global
+    `_check_conns` at compile time, and a first compilation inside the swapped region would fail"""
+    if _WARM[0]:
+        return
+    from adsg_core.optimization.assign_enc.matrix import AggregateAssignmentMatrixGenerator, Node, NodeExistence, \
+        MatrixGenSettings, NodeExistencePatterns
+    ex = NodeExistence(src_n_conn_override={0: [0, 1]})
+    gen = AggregateAssignmentMatrixGenerator(MatrixGenSettings(
+        [Node([0, 1]), Node(min_conn=0)], [Node([1])], existence=NodeExistencePatterns([NodeExistence(), ex])))
+    gen.validate_matrix(np.array([[1], [0]]), existence=ex)
+    gen.validate_matrix(np.array([[1], [0]]))
+    _WARM[0] = True
+
+
 @contextlib.contextmanager
 def symbolic_kernels():
-    """Within the block, `matrix._validate_matrix` / `matrix._check_conns` (numba kernels) are executed from their
-    Python source (`.py_func`) and the concrete settings arrays they index with a matrix sum are wrapped in SArr views.
-    The callers (`AggregateAssignmentMatrixGenerator.validate_matrix` etc.) are the unmodified real code."""
+    """Within the block, a matrix of symbolic entries handed to `matrix._validate_matrix` is checked by the Python source
+    of the numba kernels (`_validate_matrix.py_func`, with `_check_conns.py_func` as its callee) and the concrete
+    settings arrays they index with a matrix sum are wrapped in SArr views. Concrete integer matrices still go to the
+    jitted kernel. Only the module attribute `_validate_matrix` (looked up by the Python method `validate_matrix`) is
+    replaced; `_check_conns` stays the numba dispatcher so that jitted code compiled meanwhile still resolves it. The
+    callers (`AggregateAssignmentMatrixGenerator.validate_matrix` etc.) are the unmodified real code."""
+    import types
     import adsg_core.optimization.assign_enc.matrix as mx
+    _warm_up()
     orig_vm, orig_cc = mx._validate_matrix, mx._check_conns
-    vm_py = getattr(orig_vm, 'py_func', orig_vm)
+    vm_src = getattr(orig_vm, 'py_func', orig_vm)
     cc_py = getattr(orig_cc, 'py_func', orig_cc)
+    glb = dict(vm_src.__globals__)
+    glb['_check_conns'] = cc_py
+    vm_py = types.FunctionType(vm_src.__code__, glb, vm_src.__name__, vm_src.__defaults__, vm_src.__closure__)
 
     def vm(matrix, max_conn_mat, sns, tns, so, to, max_src, max_tgt):
         if isinstance(matrix, np.ndarray) and matrix.dtype != object:
             return orig_vm(matrix, max_conn_mat, sns, tns, so, to, max_src, max_tgt)
         return vm_py(matrix, max_conn_mat, SArr(sns), SArr(tns), SArr(so), SArr(to), max_src, max_tgt)
 
-    def cc(n_conns, node_settings, max_conn):
-        if not is_sym(n_conns) and not isinstance(node_settings, SArr):
-            return orig_cc(n_conns, node_settings, max_conn)
-        return cc_py(n_conns, node_settings, max_conn)
-
-    mx._validate_matrix, mx._check_conns = vm, cc
+    mx._validate_matrix = vm
     try:
         yield
     finally:
-        mx._validate_matrix, mx._check_conns = orig_vm, orig_cc
+        mx._validate_matrix = orig_vm
 
 
 def sym_matrix(ns, nt, prefix='m'):
